@@ -99,3 +99,44 @@ contract(f"{M}:StreamStatistics.fraction_lost", returns="int",
          ],
          modifies=["self._expected_prior", "self._received_prior"],
          tags=["C18"])
+
+# ---------------------------------------------------------------------------- the RTCP report loop
+# invariant of a StreamStatistics object that has seen at least one packet (what RTCRtpReceiver._handle_rtp_packet leaves
+# in __remote_streams: a stream is created and add() is called at once), with fewer than 65535 sequence wraps
+spec("ss_live", ["s"],
+     "s.max_seq is not None and s.base_seq is not None and s.packets_received >= 1 and "
+     "0 <= s.max_seq < 65536 and 0 <= s.base_seq < 65536 and s.cycles >= 0 and s.cycles % 65536 == 0 and "
+     "s.cycles < (1 << 32) - 65536 and 0 <= s._jitter_q4 <= (1 << 35) + 8 and "
+     "s._last_arrival is not None and s._last_timestamp is not None and ss_expected(s) >= 1 and "
+     "0 <= s._received_prior <= s.packets_received and "
+     "implies(ss_expected(s) > s._expected_prior, s.packets_received > s._received_prior)")
+
+klass(f"{M}:RTCRtpReceiver",
+      fields={"__remote_streams": "dict[int,StreamStatistics]", "__lsr": "dict[int,int]", "__lsr_time": "dict[int,float]",
+              "__rtcp_ssrc": "opt[int]", "__rtcp_started": "any", "__rtcp_exited": "any", "__transport": "any"})
+
+RECV_OK = ["len(self.__remote_streams) <= 31",
+           "all_in(self.__remote_streams, lambda k: 0 <= k < (1 << 32) and ss_live(self.__remote_streams[k]))",
+           "all_in(self.__lsr, lambda k: 0 <= self.__lsr[k] < (1 << 32) and k in self.__lsr_time)",
+           "implies(self.__rtcp_ssrc is not None, 0 <= self.__rtcp_ssrc < (1 << 32))",
+           "not same(self.__lsr, self.__remote_streams)"]
+
+contract(f"{M}:RTCRtpReceiver._send_rtcp", params={"packet": "RtcpRrPacket"},
+         requires=["0 <= packet.ssrc < (1 << 32) and len(packet.reports) < 32 and all_in(packet.reports, lambda r: ri_wire_ok(r))"],
+         raises={}, modifies=[], tags=["C18"])
+
+contract(f"{M}:RTCRtpReceiver._run_rtcp",
+         requires=RECV_OK, raises={},
+         locals={"reports": "list[RtcpReceiverInfo]"},
+         loops={0: dict(kind="while", invariant=RECV_OK, decreases="forever",
+                        modifies=["*StreamStatistics._expected_prior", "*StreamStatistics._received_prior"]),
+                1: dict(kind="for", index="i",
+                        invariant=RECV_OK + [
+                            "len(reports) == i", "fresh(reports)",
+                            "all_in(reports, lambda r: ri_wire_ok(r))",
+                            # RFC 3550 6.4.1: the extended highest sequence number includes the wrap cycles
+                            "forall(lambda j: reports[j].ssrc == loop_seq(1)[j][0] and "
+                            "reports[j].highest_sequence == loop_seq(1)[j][1].cycles + loop_seq(1)[j][1].max_seq, 0, i)"],
+                        modifies=["content(reports)", "*StreamStatistics._expected_prior", "*StreamStatistics._received_prior"])},
+         modifies=["*StreamStatistics._expected_prior", "*StreamStatistics._received_prior"],
+         tags=["C18"])
